@@ -389,7 +389,7 @@ fn zoo_args(rng: &mut Rng, d: &DeclSpec) -> Vec<Vec<u8>> {
             let pad = if rng.chance(1, 5) { rng.below(4) } else { 0 };
             vec![block(&p, pad)]
         }
-        R::ZErr => vec![rng.pick(&["-100", "-113", "-222", "-350", "-400", "1234", "-5", "7"]).as_bytes().to_vec()],
+        R::ZErr => vec![rng.pick(&["-100", "-113", "-222", "-350", "-400", "1234", "-5", "7", "0", "-220", "4"]).as_bytes().to_vec()],
         R::ZTup2 => vec![gen::plain_literal(rng, P::I32), f64_lit(rng)],
         R::ZTup3 => vec![str_lit(rng, 8), gen::plain_literal(rng, P::Bool), gen::plain_literal(rng, P::U8)],
         R::ZTup4 => vec![gen::plain_literal(rng, P::I64), f32_lit(rng), block(&gen::special_blk_payload(rng, 8, false), 0), str_lit(rng, 8)],
